@@ -463,3 +463,23 @@ fn k_dealer_rng() {
 fn k_dealer_rng_2() {
   check_dealer::<48>(2);
 }
+
+/// the limb helpers every generated field operation is built from (complete, all inputs):
+/// adc = a + b + carry, sbb = a - b - borrow, mac = a + b*c + carry, each as (low 64 bits, high part)
+#[kani::proof]
+fn k_ff_limb_helpers() {
+  use crate::ff::derive::{adc, mac, sbb};
+  let a: u64 = kani::any();
+  let b: u64 = kani::any();
+  let c: u64 = kani::any();
+  let carry: u64 = kani::any();
+  let (lo, hi) = adc(a, b, carry);
+  let t = a as u128 + b as u128 + carry as u128;
+  assert!(lo == t as u64 && hi == (t >> 64) as u64);
+  let (lo, hi) = mac(a, b, c, carry);
+  let t = a as u128 + (b as u128) * (c as u128) + carry as u128;
+  assert!(lo == t as u64 && hi == (t >> 64) as u64);
+  let (d, bo) = sbb(a, b, carry);
+  let t = (a as u128).wrapping_sub(b as u128 + (carry >> 63) as u128);
+  assert!(d == t as u64 && bo == (t >> 64) as u64);
+}
